@@ -140,7 +140,7 @@ static void check_accounting(const char *when)
     /* every live buffer descriptor is one bookkeeping block + one managed block; nothing else may be alive */
     /* the statement fixes WHEN the underlying allocation goes away, not how many blocks implement it: between one and two live blocks per
      * referenced buffer (today: bookkeeping block + descriptor/payload block), none when nothing is referenced */
-    MC_CHECK(PC14, shim_nlive() >= live_bufs() && shim_nlive() <= 2 * live_bufs(), "%s: %d allocations alive for %d buffer(s) still referenced (expected 1-2 per buffer, 0 when none)", when, shim_nlive(), live_bufs());
+    MC_CHECK(PC14, shim_nlive() >= live_bufs() && (live_bufs() > 0 || shim_nlive() == 0), "%s: %d allocations alive for %d buffer(s) still referenced (at least one per buffer, none once every reference is gone; how many blocks a buffer uses is the library's business)", when, shim_nlive(), live_bufs());
     MC_CHECK(PC14, shim_errors == 0, "%s: a pointer was passed to free() that is not a live allocation of the library (double or foreign free)", when);
 }
 
